@@ -95,11 +95,18 @@ func c18Run(ops []c18op) (viol, key string, classes map[string]int, susp *c18sus
 				classes["reset_after_unread_expiry"]++
 			}
 			s0 = time.Now()
-			tm.Reset(o.H, o.V, o.D)
+			// Reset must return: it runs under a watchdog (a timer whose Reset blocks hangs the consensus event loop)
+			done := make(chan struct{})
+			go func() { tm.Reset(o.H, o.V, o.D); close(done) }()
+			select {
+			case <-done:
+			case <-time.After(c18Tolerance):
+				return fmt.Sprintf("op %d: Reset(%d,%d,%s) did not return within %s", i, o.H, o.V, o.D, c18Tolerance), "reset-blocked", classes, nil
+			}
 			s1 = time.Now()
 			D, have, consumed, ambiguous, h, v = o.D, true, false, false, o.H, o.V
-			if o.D == 0 {
-				// fires immediately for a zero duration
+			if o.D == 0 && o.V%2 == 0 {
+				// fires immediately for a zero duration (read at once in half of the cases, left unread in the others)
 				select {
 				case <-tm.C():
 					consumed = true
@@ -107,6 +114,8 @@ func c18Run(ops []c18op) (viol, key string, classes map[string]int, susp *c18sus
 					return fmt.Sprintf("op %d: Reset with zero duration did not make an expiry available immediately", i), "zero-not-immediate", classes, nil
 				}
 				classes["zero_reset"]++
+			} else if o.D == 0 {
+				classes["zero_reset_left_unread"]++
 			}
 		case "extend":
 			if !have {
